@@ -99,6 +99,8 @@ func returnsUnder(fn *ssa.Function, blocks []*ssa.BasicBlock, idx int) []string 
 }
 
 func runC11(c *an.Ctx) {
+	r7ExactMatchOneNode(c, "R3")
+	r7BinaryRxVerdict(c, "R1")
 	ops := syntaxOps(c)
 	if len(ops) < 15 {
 		c.Unknown("R3", "regexp/syntax operator table", 0, "regexp/syntax constants not resolved")
